@@ -186,6 +186,28 @@ func (db *DB) reconstructSSTables() error {
 	return nil
 }
 
+func removeFilesInNameOrder(dir string) error {
+	entries, err := os.ReadDir(dir)
+	if err != nil {
+		return err
+	}
+
+	var names []string
+	for _, e := range entries {
+		if !e.IsDir() {
+			names = append(names, e.Name())
+		}
+	}
+	sort.Strings(names)
+	for _, name := range names {
+		err = os.Remove(filepath.Join(dir, name))
+		if err != nil {
+			return err
+		}
+	}
+	return nil
+}
+
 func isCompleteSSTable(tablePath string) (bool, error) {
 	info, err := os.Stat(filepath.Join(tablePath, sstables.MetaFileName))
 	if err != nil {
@@ -284,6 +306,14 @@ func (db *DB) replayAndSetupWriteAheadLog() error {
 		}
 		elapsedDuration := time.Since(start)
 		log.Printf("done replaying WAL in %v with %d records\n", elapsedDuration, numRecords)
+	}
+
+	// everything in the WAL is part of a sstable now. The files must go oldest first: should we be killed in between,
+	// the next recovery replays what is left into a newer table, which is only harmless for a suffix of the log
+	// (replaying an older file alone would bring overwritten values back).
+	err = removeFilesInNameOrder(walBasePath)
+	if err != nil {
+		return err
 	}
 
 	err = os.RemoveAll(walBasePath)
